@@ -249,7 +249,7 @@ Section Json.
   (* ---- idr/marshal2.go -------------------------------------------------------------------- *)
   Definition j2_node_name (t : tree) : bytes :=
     match t_fs t with
-    | FXml (_ :: _ as p) _ => p ++ [x3a] ++ t_data t
+    | FXml ((_ :: _) as p) _ => p ++ [x3a] ++ t_data t
     | _ => t_data t
     end.
 
